@@ -22,6 +22,7 @@ T = lambda text, nan=False, sep=False: (text, nan, sep)  # noqa: E731
 FULL = [T('one'), T('twenty'), T('first'), T('zero'), T('and'), T('point'), T('the'), T('of'), T(','), T('.'), T('-'), T(' '),
         T('one', nan=True), T('one', sep=True), T('the', sep=True)]
 CORE = [T('one'), T('twenty'), T('first'), T('and'), T('the'), T(','), T('.')]
+LONE = CORE + [T('point')]      # V09: a decimal next to a lone digit (the separator word is answered Incomplete, like a linking word)
 HOLD = [T('twenty'), T('first'), T('and'), T('the'), T(',')]   # a held number of three tokens ('twenty and first') is what it takes to shift later spans out of range
 
 
@@ -494,14 +495,15 @@ def rule_lone_policy(ctx, rep):
                 'numbers minus those that are small (one digit or ordinal, value < t) and isolated (no number of the same kind directly '
                 'before or after, ignoring spaces, non-period punctuation and linking words); thresholds 0, negative and NaN report all')
     d = depth_for(ctx, 4, 5)
-    alpha = CORE
+    alpha = LONE
     ths = [0.0, 1.0, 2.0, 10.0, 21.0, 100.0, float('inf'), float('nan'), -1.0] if ctx.tier == 'thorough' else [0.0, 1.0, 10.0, 21.0, float('inf'), float('nan')]
-    tabs = {repr(th): table(ctx, 'core', alpha, d, th, 'batch') for th in ths}
+    tabs = {repr(th): table(ctx, 'lone', alpha, d, th, 'batch') for th in ths}
     base = tabs[repr(0.0)]
     if not all(_unsupported(rep, R, t_) for t_ in tabs.values()):
         return
     n = 0
     bad_rec, bad_pol, bad_all = [], [], []
+    n_dangling = 0
     for s, b0 in base.items():
         if b0.error:
             continue
@@ -511,6 +513,11 @@ def rule_lone_policy(ctx, rep):
         if len(rec0) != len(numbers):
             bad_all.append((s, 0.0, numbers, rec0))
             continue
+        # a separator word that ends up outside every number (`one point the`) is neither a linking word nor an ordinary word for
+        # the statement; whether it keeps two numbers together is left open: the policy is compared on the other scripts only
+        dangling = any(tk[0] == 'point' and not any(o[0] <= i < o[1] for o in numbers) for i, tk in enumerate(s))
+        if dangling:
+            n_dangling += 1
         for th in ths[1:]:
             b = tabs[repr(th)][s]
             if b.error:
@@ -518,6 +525,8 @@ def rule_lone_policy(ctx, rep):
             rec = [e[-1] for e in b.events if e[0] in ('format', 'format-dec')]
             if rec != rec0:
                 bad_rec.append((s, th, rec0, rec))
+                continue
+            if dangling:
                 continue
             # spec
             want = []
@@ -556,7 +565,7 @@ def rule_lone_policy(ctx, rep):
     # the lazy iterator applies the same policy (it drains the same tracker incrementally)
     bad_lazy = []
     for th in (10.0, float('inf')):
-        lt = table(ctx, 'core', alpha, d, th, 'lazy')
+        lt = table(ctx, 'lone', alpha, d, th, 'lazy')
         if not _unsupported(rep, R, lt):
             return
         bt = tabs[repr(th)]
